@@ -126,3 +126,10 @@ Section Finish.
     destruct (exec ft a fuel _); reflexivity.
   Qed.
 End Finish.
+
+Definition res_map {A B} (f : A -> B) (r : res A) : res B :=
+  match r with Ok a => Ok (f a) | Err k => Err k end.
+
+Lemma exec_seq ft a b fuel en :
+  exec ft (SSeq a b) fuel en = match exec ft a fuel en with ONorm en' => exec ft b fuel en' | o => o end.
+Proof. reflexivity. Qed.
